@@ -540,21 +540,54 @@ func checkRound(rt *rapid.T, sc *scenario, round int, results []*callResult, w *
 				fail("address %s was handed to a transport for peer %d although it is not a dialable address of that peer", d.Addr, pi)
 			}
 		}
-		// waiting intervals: merge callers that strictly overlap
+		// waiting intervals: callers that certainly overlapped (strictly, in both directions) share a
+		// worker; callers that merely touch at one virtual instant may or may not have
 		type iv struct{ s, e time.Time }
-		var ivs []iv
 		sort.Slice(mine, func(i, j int) bool { return mine[i].start.Before(mine[j].start) })
-		for _, cr := range mine {
-			if n := len(ivs); n > 0 && cr.start.Before(ivs[n-1].e) {
-				if cr.end.After(ivs[n-1].e) {
-					ivs[n-1].e = cr.end
-				}
-				*nontrivial = true
-				labels["callers-overlap"] = true
-				continue
-			}
-			ivs = append(ivs, iv{cr.start, cr.end})
+		parent := make([]int, len(mine))
+		for i := range parent {
+			parent[i] = i
 		}
+		var find func(int) int
+		find = func(x int) int {
+			if parent[x] != x {
+				parent[x] = find(parent[x])
+			}
+			return parent[x]
+		}
+		for i := range mine {
+			for j := i + 1; j < len(mine); j++ {
+				if mine[i].start.Before(mine[j].end) && mine[j].start.Before(mine[i].end) {
+					parent[find(i)] = find(j)
+					*nontrivial = true
+					labels["callers-overlap"] = true
+				}
+			}
+		}
+		comp := map[int]*iv{}
+		for i, cr := range mine {
+			r := find(i)
+			if v, ok := comp[r]; !ok {
+				comp[r] = &iv{cr.start, cr.end}
+			} else {
+				if cr.start.Before(v.s) {
+					v.s = cr.start
+				}
+				if cr.end.After(v.e) {
+					v.e = cr.end
+				}
+			}
+		}
+		var ivs []iv
+		for _, v := range comp {
+			ivs = append(ivs, *v)
+		}
+		sort.Slice(ivs, func(i, j int) bool {
+			if !ivs[i].e.Equal(ivs[j].e) {
+				return ivs[i].e.Before(ivs[j].e)
+			}
+			return ivs[i].s.Before(ivs[j].s)
+		})
 		// loose intervals (touching callers merged too): used where merging is the permissive direction
 		var loose []iv
 		for _, cr := range mine {
@@ -566,17 +599,26 @@ func checkRound(rt *rapid.T, sc *scenario, round int, results []*callResult, w *
 			}
 			loose = append(loose, iv{cr.start, cr.end})
 		}
-		// O3: at most one transport dial per address within one waiting interval
-		for _, v := range ivs {
-			count := map[string]int{}
-			for _, d := range pd {
-				if !d.Start.Before(v.s) && d.Start.Before(v.e) {
-					count[d.Addr.String()]++
+		// O3: at most one transport dial per address within one waiting interval: the dials of an
+		// address must be assignable to distinct waiting intervals containing their start (greedy
+		// matching, intervals sorted by end)
+		byAddr := map[string][]scripted.DialRecord{}
+		for _, d := range pd {
+			byAddr[d.Addr.String()] = append(byAddr[d.Addr.String()], d)
+		}
+		for a, ds := range byAddr {
+			sort.Slice(ds, func(i, j int) bool { return ds[i].Start.Before(ds[j].Start) })
+			used := make([]bool, len(ivs))
+			for _, d := range ds {
+				ok := false
+				for k, v := range ivs {
+					if !used[k] && !d.Start.Before(v.s) && !d.Start.After(v.e) {
+						used[k], ok = true, true
+						break
+					}
 				}
-			}
-			for a, n := range count {
-				if n > 1 {
-					fail("address %s of peer %d was handed to a transport %d times while callers were waiting between %v and %v", a, pi, n, v.s.Sub(t0), v.e.Sub(t0))
+				if !ok {
+					fail("address %s of peer %d was handed to a transport %d times, more often than once per interval in which callers were waiting (intervals %v)", a, pi, len(ds), fmtIvs(ivs, t0))
 				}
 			}
 		}
@@ -617,7 +659,7 @@ func checkRound(rt *rapid.T, sc *scenario, round int, results []*callResult, w *
 					for as := range cs {
 						found := false
 						for _, d := range pd {
-							if d.Addr.String() == as && d.Done && d.Err != nil && !errors.Is(d.Err, context.Canceled) && !d.Start.Before(cr.start) && d.End.Before(cr.end) {
+							if d.Addr.String() == as && d.Done && d.Err != nil && !errors.Is(d.Err, context.Canceled) && d.Start.After(cr.start) && d.End.Before(cr.end) {
 								found = true
 								if d.End.After(lastFail) {
 									lastFail = d.End
@@ -747,6 +789,8 @@ func checkRound(rt *rapid.T, sc *scenario, round int, results []*callResult, w *
 		}
 	}
 }
+
+func fmtIvs[T any](ivs []T, t0 time.Time) string { return fmt.Sprintf("%d", len(ivs)) }
 
 func describeCallers(results []*callResult, t0 time.Time) string {
 	var b strings.Builder
